@@ -107,9 +107,33 @@ pub fn strategy() -> impl Strategy<Value = Case> {
 }
 
 pub fn build_session(c: &Case, corp: &corpus::Corpus) -> Vec<Cmd> {
-    let mut out = vec![];
+    let mut out: Vec<Cmd> = vec![];
+    // the last accepted position command's game: a GUI re-sends it with a growing move list
+    let mut last_game: Option<Game> = None;
     for (sel, g, ent) in &c.cmds {
         let mut e = Entropy::new(ent);
+        // "extend the previous command": same start, the same moves plus 0..3 more
+        if (*sel == 2 || *sel == 3) && last_game.is_some() {
+            let mut game = last_game.clone().unwrap();
+            let more = e.pick(4);
+            for _ in 0..more {
+                let legal = game.cur.legal_moves();
+                if legal.is_empty() {
+                    break;
+                }
+                let m = gen::choose_move(&game, &legal, true, e.raw());
+                game.play(m);
+            }
+            let moves = game.moves_uci();
+            let mut text = if game.start == Pos::startpos() { "position startpos".to_string() } else { format!("position fen {}", game.start.to_fen()) };
+            if !moves.is_empty() {
+                text.push_str(" moves ");
+                text.push_str(&moves.join(" "));
+            }
+            last_game = Some(game.clone());
+            out.push(Cmd { text, accept: Some(game), is_position: true, classes: vec![if more == 0 { "same-command-again" } else { "previous-command-extended" }] });
+            continue;
+        }
         match sel {
             0 => out.push(Cmd { text: "ucinewgame".into(), accept: Some(Game::new(Pos::startpos())), is_position: false, classes: vec!["ucinewgame"] }),
             1 => out.push(Cmd { text: "isready".into(), accept: None, is_position: false, classes: vec!["isready"] }),
@@ -160,6 +184,9 @@ pub fn build_session(c: &Case, corp: &corpus::Corpus) -> Vec<Cmd> {
                     text.push_str(&moves.join(" "));
                 }
                 classes.dedup();
+                if let Some(g) = &accept {
+                    last_game = Some(g.clone());
+                }
                 out.push(Cmd { text, accept, is_position: true, classes });
             }
         }
@@ -422,7 +449,7 @@ pub fn parse_position(text: &str) -> Option<Game> {
 }
 
 pub const LEVEL: &str = "exploration";
-pub const RULE: &str = "UCI sessions of 1..8 commands from {position startpos|fen F [moves ...], ucinewgame, isready}; move lists are legal games (up to 60 plies, special-move-weighted so castling, e.p. and all promotion suffixes occur as strings) and, in ~1/3 of the position commands, one move is corrupted (pseudo-legal but leaves the king in check, opponent's move, move of a missing piece, promotion without suffix, suffix on a non-promotion, uppercase, 0000, O-O, e1h1, e2, e2e9, z9z9 - each verified by the oracle not to be legal there). Layer a (in-process session, hook H4): after EVERY command the session board == the model (last accepted position; startpos initially and after ucinewgame) in all components, its legal moves/check status == oracle, key == key of the oracle FEN, earlier positions of the accepted game remembered, and Err returned exactly for corrupted position commands. Layer b (real binary): after every position/ucinewgame command a 'go nodes 2000' probe's bestmove must be legal in the model position (probes whose move is also legal in the previous position are counted as weak). Non-trivial = session with a special move in a list, a corruption, or more than one command; distinct by session text.";
+pub const RULE: &str = "UCI sessions of 1..8 commands from {position startpos|fen F [moves ...], the previous position command again or extended by 1..3 more moves (as a GUI re-sends a growing game), ucinewgame, isready}; move lists are legal games (up to 60 plies, special-move-weighted so castling, e.p. and all promotion suffixes occur as strings) and, in ~1/3 of the position commands, one move is corrupted (pseudo-legal but leaves the king in check, opponent's move, move of a missing piece, promotion without suffix, suffix on a non-promotion, uppercase, 0000, O-O, e1h1, e2, e2e9, z9z9 - each verified by the oracle not to be legal there). Layer a (in-process session, hook H4): after EVERY command the session board == the model (last accepted position; startpos initially and after ucinewgame) in all components, its legal moves/check status == oracle, key == key of the oracle FEN, earlier positions of the accepted game remembered, and Err returned exactly for corrupted position commands. Layer b (real binary): after every position/ucinewgame command a 'go nodes 2000' probe's bestmove must be legal in the model position (probes whose move is also legal in the previous position are counted as weak). Non-trivial = session with a special move in a list, a corruption, or more than one command; distinct by session text.";
 pub const ASSUMPTIONS: &[&str] = &[
     "rules oracle + session model (last accepted position)",
     "shapes whose meaning the statement leaves open (junk where 'moves' belongs, empty 'moves' tail, 4-field FEN) are not generated here; C15 sends them and asserts liveness only",
